@@ -1,4 +1,5 @@
 #![allow(dead_code)]
+mod c05;
 mod c10;
 mod c11;
 mod consumer;
@@ -47,6 +48,7 @@ fn main() {
         "c15" => c15::run(&out, &tier, seed, shards, replay),
         "gen" => gen::run(&out, &tier, seed, shards, replay),
         "c14" => c14::run(&out, &tier, seed, shards, replay),
+        "c05" => c05::run(&out, &tier, seed, shards, replay),
         "c11" => c11::run(&out, &tier, seed, shards, replay),
         other => {
             eprintln!("unknown command {}", other);
